@@ -841,86 +841,82 @@ func cbkConcurrent(r *h.Report, base int, round int) {
 }
 
 // cbkConcurrentSame: "registering the same callback twice for one counter is refused" when the registrations come from
-// several goroutines at once (monitor only). Per round K fresh counters; N goroutines, released together, each
-// register the SAME function (closures of one function literal: one code pointer, the identity AddResponseCallback
-// uses) for every one of the K counters, in the same order - they contend for the registry for the whole round, every
-// counter is a fresh chance for two of them to be in the call at the same time. Per counter exactly one call may be
-// accepted; then, for a sample of the counters, one matching reply arrives: exactly one invocation each.
+// several goroutines at once (monitor only). Per round G pairs of goroutines; each pair walks through K fresh
+// counters of its own and registers the SAME function (closures of one function literal: one code pointer, the
+// identity AddResponseCallback uses) for each; before every counter the two wait for each other (a spinning barrier
+// with a bound: whoever comes first spins until the other is there), so that both calls start within nanoseconds of
+// each other whenever both goroutines are on a processor - hundreds of such moments per round. Per counter exactly
+// one call may be accepted; then, for a sample of the counters, one matching reply arrives: exactly one invocation.
 func cbkConcurrentSame(r *h.Report, base int, rounds int) {
-	const n, k, sample = 8, 256, 12
+	const groups, k, sample = 4, 128, 4
 	w := newCbkWorld(true)
 	defer func() { w.close(); cbkSettle(base) }()
 	cbkSettle(base)
 	next := 1000
 	for round := 0; round < rounds; round++ {
 		first := next
-		next += k
-		ops := []string{fmt.Sprintf("concurrent-same round %d: %d goroutines register the same function for each of the counters %d..%d of feature 1 at once, then one reply per sampled counter", round, n, first, first+k-1)}
+		next += groups * k
+		ops := []string{fmt.Sprintf("concurrent-same round %d: %d pairs of goroutines, each pair registers the same function for each of its %d counters (from %d on) of feature 1 at the same moment, then one reply per sampled counter", round, groups, k, first)}
 		// two other functions wait for the sampled counters already (the duplicate check has something to go through)
-		for j := 0; j < k; j += k / sample {
-			_ = w.feats[1].AddResponseCallback(model.MsgCounterType(first+j), cbkMk2(w.log, 50000))
-			_ = w.feats[1].AddResponseCallback(model.MsgCounterType(first+j), cbkMk3(w.log, 50001))
-		}
-		var wg sync.WaitGroup
-		var accepted [k]int32
-		var ready, start int32
-		for g := 0; g < n; g++ {
-			g := g
-			wg.Add(1)
-			go func() {
-				defer wg.Done()
-				var fs [k]func(api.ResponseMessage)
-				for j := range fs {
-					fs[j] = cbkMk1(w.log, 100000+j) // the registration id names the counter
-				}
-				atomic.AddInt32(&ready, 1)
-				for i := 0; atomic.LoadInt32(&start) == 0; i++ {
-					if i > 100000 {
-						runtime.Gosched()
-						i = 0
-					}
-				}
-				for j := 0; j < k; j++ {
-					if w.feats[1].AddResponseCallback(model.MsgCounterType(first+j), fs[j]) == nil {
-						atomic.AddInt32(&accepted[j], 1)
-					}
-				}
-				_ = g
-			}()
-		}
-		for t0 := time.Now(); atomic.LoadInt32(&ready) < n && time.Since(t0) < 2*time.Second; {
-			runtime.Gosched()
-		}
-		atomic.StoreInt32(&start, 1)
-		wg.Wait()
-		r.Eval("concurrent-same-round", "")
-		for j := 0; j < k; j++ {
-			switch a := atomic.LoadInt32(&accepted[j]); {
-			case a == 0:
-				r.SpecFail("C14/distinct-callback-refused", ops, fmt.Sprintf("all %d registrations of a function that was registered nowhere for counter %d were refused", n, first+j))
-				return
-			case a > 1:
-				// the reply that follows shows what it means
-				ctr := model.MsgCounterType(first + j)
-				_, cmd, _ := cbkPayload(1, "reply", 9000, 1)
-				w.ctr++
-				w.send(1, 1, model.CmdClassifierTypeReply, w.ctr, &ctr, cbkSrc(1, 1), cmd)
-				cbkSettle(base)
-				inv := 0
-				for _, x := range w.log.take() {
-					if x.reg == 100000+j {
-						inv++
-					}
-				}
-				r.SpecFail("C14/same-callback-registered-twice", ops, fmt.Sprintf("%d goroutines registered the same function (one code pointer) for counter %d of one feature at the same time: %d of the calls were accepted (the statement: registering the same callback twice for one counter is refused); the one reply that followed invoked it %d times", n, ctr, a, inv))
-				return
+		for g := 0; g < groups; g++ {
+			for j := 0; j < k; j += k / sample {
+				_ = w.feats[1].AddResponseCallback(model.MsgCounterType(first+g*k+j), cbkMk2(w.log, 50000))
+				_ = w.feats[1].AddResponseCallback(model.MsgCounterType(first+g*k+j), cbkMk3(w.log, 50001))
 			}
 		}
-		for j := 0; j < k; j += k / sample {
-			ctr := model.MsgCounterType(first + j)
-			_, cmd, _ := cbkPayload(1, "reply", 9000+j, 1)
-			w.ctr++
-			w.send(1, 1, model.CmdClassifierTypeReply, w.ctr, &ctr, cbkSrc(1, 1), cmd)
+		var wg sync.WaitGroup
+		var accepted, arrived [groups][k]int32
+		for g := 0; g < groups; g++ {
+			for half := 0; half < 2; half++ {
+				g := g
+				wg.Add(1)
+				go func() {
+					defer wg.Done()
+					for j := 0; j < k; j++ {
+						f := cbkMk1(w.log, 100000+g*k+j) // the registration id names the counter
+						atomic.AddInt32(&arrived[g][j], 1)
+						for spin := 0; atomic.LoadInt32(&arrived[g][j]) < 2 && spin < 200000; spin++ {
+						}
+						if w.feats[1].AddResponseCallback(model.MsgCounterType(first+g*k+j), f) == nil {
+							atomic.AddInt32(&accepted[g][j], 1)
+						}
+					}
+				}()
+			}
+		}
+		wg.Wait()
+		r.Eval("concurrent-same-round", "")
+		for g := 0; g < groups; g++ {
+			for j := 0; j < k; j++ {
+				switch a := atomic.LoadInt32(&accepted[g][j]); {
+				case a == 0:
+					r.SpecFail("C14/distinct-callback-refused", ops, fmt.Sprintf("both registrations of a function that was registered nowhere for counter %d were refused", first+g*k+j))
+					return
+				case a > 1:
+					// the reply that follows shows what it means
+					ctr := model.MsgCounterType(first + g*k + j)
+					_, cmd, _ := cbkPayload(1, "reply", 9000, 1)
+					w.ctr++
+					w.send(1, 1, model.CmdClassifierTypeReply, w.ctr, &ctr, cbkSrc(1, 1), cmd)
+					cbkSettle(base)
+					inv := 0
+					for _, x := range w.log.take() {
+						if x.reg == 100000+g*k+j {
+							inv++
+						}
+					}
+					r.SpecFail("C14/same-callback-registered-twice", ops, fmt.Sprintf("two goroutines registered the same function (one code pointer) for counter %d of one feature at the same moment: %d of the calls were accepted (the statement: registering the same callback twice for one counter is refused); the one reply that followed invoked it %d times", ctr, a, inv))
+					return
+				}
+			}
+		}
+		for g := 0; g < groups; g++ {
+			for j := 0; j < k; j += k / sample {
+				ctr := model.MsgCounterType(first + g*k + j)
+				_, cmd, _ := cbkPayload(1, "reply", 9000+j, 1)
+				w.ctr++
+				w.send(1, 1, model.CmdClassifierTypeReply, w.ctr, &ctr, cbkSrc(1, 1), cmd)
+			}
 		}
 		if !cbkSettle(base) {
 			r.SpecFail("C14/callback-blocked", ops, "callbacks did not return")
@@ -932,14 +928,16 @@ func cbkConcurrentSame(r *h.Report, base int, rounds int) {
 				inv[x.reg-100000]++ // (the two other functions are invoked as well: not counted)
 			}
 		}
-		for j := 0; j < k; j += k / sample {
-			if inv[j] != 1 {
-				r.SpecFail("C14/callback-invoked-twice", ops, fmt.Sprintf("counter %d: one registration accepted, one matching reply: %d invocations", first+j, inv[j]))
-				return
+		for g := 0; g < groups; g++ {
+			for j := 0; j < k; j += k / sample {
+				if inv[g*k+j] != 1 {
+					r.SpecFail("C14/callback-invoked-twice", ops, fmt.Sprintf("counter %d: one registration accepted, one matching reply: %d invocations", first+g*k+j, inv[g*k+j]))
+					return
+				}
 			}
 		}
 	}
-	r.Info["concurrent-same"] = fmt.Sprintf("%d rounds of %d goroutines registering one function for each of %d counters at once: one accepted per counter, one invocation per sampled counter", rounds, n, k)
+	r.Info["concurrent-same"] = fmt.Sprintf("%d rounds of %d pairs of goroutines registering one function for each of %d counters at the same moment: one accepted per counter, one invocation per sampled counter", rounds, groups, k)
 }
 
 func TestCallbacks(t *testing.T) {
@@ -978,7 +976,7 @@ func TestCallbacks(t *testing.T) {
 	info := map[string]int{}
 	if ops := h.ReplayOps("callbacks"); ops != nil {
 		if len(ops) > 0 && strings.HasPrefix(ops[0], "concurrent-same") {
-			cbkConcurrentSame(r, base, h.Scale(40, 400))
+			cbkConcurrentSame(r, base, h.Scale(150, 1000))
 			return
 		}
 		if len(ops) > 0 && strings.HasPrefix(ops[0], "concurrent") {
@@ -1066,5 +1064,5 @@ func TestCallbacks(t *testing.T) {
 	for round := 0; round < h.Scale(60, 600); round++ {
 		cbkConcurrent(r, base, round)
 	}
-	cbkConcurrentSame(r, base, h.Scale(40, 400))
+	cbkConcurrentSame(r, base, h.Scale(150, 1000))
 }
